@@ -24,14 +24,20 @@ type Thread struct {
 	result  Val
 	err     interface{}
 
+	signalled     bool  // strict cond semantics: this parked waiter has been signalled
 	csStartStores int64 // th.stores when the current critical section began
 	csLock        *Block
-	emptyCS       map[*Block]int64 // lock -> global store epoch at the end of an empty critical section
+	emptyCS       map[*Block]int64 // (unused) lock -> global store epoch at the end of an empty critical section
+	// polling-loop suppression: the last acquire of this thread
+	site          string // call site of the acquire being executed (set by the evaluator)
+	lastSite      string
+	lastSiteOwn   int64 // th.stores at that acquire
+	lastSiteEpoch int64 // global store epoch at that acquire
 	body          func() Val
 }
 
 type pendingOp struct {
-	kind  string // start, acquire, wgwait
+	kind  string // start, acquire, wgwait, condacquire
 	obj   *Block
 	epoch int64 // for cond re-acquire: global store epoch when the wait began; -1 if n/a
 	spin  bool  // acquire that follows an empty critical section on the same lock
@@ -60,6 +66,8 @@ type syncState struct {
 	ctr  int64
 	vc   []int
 	lock *Block
+	// strict condition-variable semantics: threads parked in Wait, in arrival order
+	waiters []*Thread
 }
 
 func joinVC(a, b []int) []int {
@@ -188,17 +196,34 @@ func (s *sched) enabled(th *Thread) bool {
 	case "start":
 		return true
 	case "acquire":
+		return !op.obj.lockState().held
+	case "wgwait":
+		return op.obj.lockState().ctr == 0
+	case "condacquire":
+		// strict semantics: a waiter proceeds only after a Signal/Broadcast reached it (a timed
+		// wait may also time out, under the same no-new-information suspension rule)
 		if op.obj.lockState().held {
 			return false
 		}
-		if op.epoch >= 0 && s.in.StoreEpoch == op.epoch {
-			// cond wait / spinning poll: nothing has been written since; waking up would
-			// re-check the same state. Suspended until some thread stores.
-			return false
-		}
-		return true
-	case "wgwait":
-		return op.obj.lockState().ctr == 0
+		return th.signalled || op.spin
+	}
+	return false
+}
+
+// suspended: the thread could run, but it would only re-observe a state it has already seen
+// (a Wait that returns although nothing was written since it began, a polling loop back at the
+// same acquire with nothing written in between, a timed wait timing out). Such threads run
+// only when nothing else can, so pure spinning does not multiply schedules.
+func (s *sched) suspended(th *Thread) bool {
+	op := th.pending
+	if op == nil {
+		return false
+	}
+	switch op.kind {
+	case "acquire":
+		return op.epoch >= 0 && s.in.StoreEpoch == op.epoch
+	case "condacquire":
+		return !th.signalled && op.spin && s.in.StoreEpoch == op.epoch
 	}
 	return false
 }
@@ -228,24 +253,57 @@ func initSyncPrims() {
 		c.B.lockState().lock = lb
 		return c
 	}}
-	condWait := func(in *Interp, th *Thread, a []Val) Val {
+	condWaitGen := func(in *Interp, th *Thread, a []Val, timed bool) Val {
 		c := syncBlock(a[0], "cond", "lock.condWait")
 		lb := c.lockState().lock
+		if in.StrictCond && in.sched != nil {
+			cs := c.lockState()
+			th.signalled = false
+			cs.waiters = append(cs.waiters, th)
+			in.release(th, lb)
+			in.sched.yield(th, &pendingOp{kind: "condacquire", obj: lb, epoch: in.StoreEpoch, spin: timed})
+			if !th.signalled {
+				// woke by timeout: the timer wakes every waiter of this Cond (spurious wakeups)
+				for _, w := range cs.waiters {
+					w.signalled = true
+				}
+				cs.waiters = nil
+			}
+			st := lb.lockState()
+			if st.held {
+				panic("scheduler granted a held lock")
+			}
+			st.held = true
+			th.vc = joinVC(th.vc, st.vc)
+			th.csStartStores = th.stores
+			th.csLock = lb
+			return VUnit{}
+		}
 		in.release(th, lb)
 		in.acquire(th, lb, in.StoreEpoch)
 		return VUnit{}
 	}
+	condWait := func(in *Interp, th *Thread, a []Val) Val { return condWaitGen(in, th, a, false) }
 	prims["lock.condWait"] = &Prim{1, condWait}
 	prims["lock.condWaitTimeout"] = &Prim{2, func(in *Interp, th *Thread, a []Val) Val {
 		asInt(a[1], "lock.condWaitTimeout")
-		return condWait(in, th, a[:1])
+		return condWaitGen(in, th, a[:1], true)
 	}}
 	prims["lock.condSignal"] = &Prim{1, func(in *Interp, th *Thread, a []Val) Val {
-		syncBlock(a[0], "cond", "lock.condSignal")
+		c := syncBlock(a[0], "cond", "lock.condSignal")
+		if cs := c.lockState(); len(cs.waiters) > 0 {
+			cs.waiters[0].signalled = true
+			cs.waiters = cs.waiters[1:]
+		}
 		return VUnit{}
 	}}
 	prims["lock.condBroadcast"] = &Prim{1, func(in *Interp, th *Thread, a []Val) Val {
-		syncBlock(a[0], "cond", "lock.condBroadcast")
+		c := syncBlock(a[0], "cond", "lock.condBroadcast")
+		cs := c.lockState()
+		for _, w := range cs.waiters {
+			w.signalled = true
+		}
+		cs.waiters = nil
 		return VUnit{}
 	}}
 	prims["waitgroup.New"] = &Prim{1, func(in *Interp, th *Thread, a []Val) Val {
@@ -312,12 +370,14 @@ func (in *Interp) acquire(th *Thread, b *Block, epoch int64) {
 	}
 	op := &pendingOp{kind: "acquire", obj: b, epoch: epoch}
 	if epoch < 0 {
-		// polling loop suppression: an acquire right after an empty critical section on the
-		// same lock, with no store by anyone since, would observe the same state again
-		if e, ok := th.emptyCS[b]; ok && e == in.StoreEpoch {
-			op.epoch = e
+		// polling-loop suppression: the thread is back at the same acquire call site, has not
+		// changed any cell since it was last here, and nobody else has either: it would observe
+		// the same state again. Suspended until some thread stores.
+		if th.site != "" && th.site == th.lastSite && th.lastSiteOwn == th.stores && th.lastSiteEpoch == in.StoreEpoch {
+			op.epoch = in.StoreEpoch
 			op.spin = true
 		}
+		th.lastSite, th.lastSiteOwn, th.lastSiteEpoch = th.site, th.stores, in.StoreEpoch
 	}
 	in.sched.yield(th, op)
 	if st.held {
@@ -371,6 +431,7 @@ func runOnce(prog *Program, policy CapPolicy, entry string, prefix []int, maxDep
 	if maxSteps > 0 {
 		in.MaxSteps = maxSteps
 	}
+	in.StrictCond = ExploreStrictCond(prog)
 	in.Disk = make([][]byte, diskBlocks)
 	s := &sched{in: in, parked: make(chan *Thread, 16), prefix: prefix, maxDepth: maxDepth}
 	in.sched = s
@@ -411,6 +472,7 @@ func runOnce(prog *Program, policy CapPolicy, entry string, prefix []int, maxDep
 	}
 	mainDone := false
 	var mainOutcome Outcome
+	idle, idleEpoch := 0, int64(-1)
 	for {
 		// any thread failed?
 		failed := false
@@ -437,11 +499,34 @@ func runOnce(prog *Program, policy CapPolicy, entry string, prefix []int, maxDep
 				mainOutcome = Outcome{"value", str}
 			}
 		}
-		var en []*Thread
+		var en, susp []*Thread
 		for _, th := range s.threads {
 			if s.enabled(th) {
-				en = append(en, th)
+				if s.suspended(th) {
+					susp = append(susp, th)
+				} else {
+					en = append(en, th)
+				}
 			}
+		}
+		if len(en) == 0 && len(susp) > 0 {
+			// only threads that would re-observe an unchanged state are left
+			if in.StoreEpoch == idleEpoch {
+				idle++
+			} else {
+				idle, idleEpoch = 0, in.StoreEpoch
+			}
+			if idle > 2*len(s.threads)+2 && !mainDone {
+				var who []string
+				for _, th := range s.threads {
+					if !th.done && th.pending != nil {
+						who = append(who, fmt.Sprintf("t%d@%s", th.id, th.pending.kind))
+					}
+				}
+				finish(Outcome{"deadlock", "no progress: every runnable thread waits for a change nobody makes " + fmt.Sprint(who)})
+				break
+			}
+			en = susp
 		}
 		if len(en) == 0 {
 			allDone := true
@@ -572,3 +657,8 @@ func (r ExploreResult) SortedOutcomes() []string {
 	sort.Strings(ks)
 	return ks
 }
+
+// ExploreStrictCond reports whether exploration of prog uses Go's condition-variable
+// semantics (Wait blocks until a Signal/Broadcast reaches it, Signal wakes the longest
+// waiter) instead of GooseLang's permissive model (Wait = release; acquire).
+func ExploreStrictCond(p *Program) bool { return p.StrictCond }
